@@ -26,11 +26,11 @@ def inputs(ck):
     streams["regress"] = gen.regressions("C01")
     seqs = gen.class_sequences(2 if quick else 3)
     streams["class_seq"] = [gen.join_reps(s) for s in seqs]
-    streams["class_seq_spaced"] = [gen.join_reps(s, " ") for s in seqs[: (2000 if quick else 20000)]]
+    streams["class_seq_spaced"] = [gen.join_reps(s, " ") for s in seqs[: (2000 if quick else 60000)]]
     streams["soup"] = [gen.join_reps(gen.random_token_soup(rng, rng.randrange(3, 12)), rng.choice(["", " ", "\n"]))
-                       for _ in range(1500 if quick else 30000)]
+                       for _ in range(1500 if quick else 200000)]
     sents, muts, noisy = [], [], []
-    for i in range(600 if quick else 8000):
+    for i in range(600 if quick else 40000):
         toks = gen.sentence(rng, budget=rng.choice([4, 6, 8, 10]))
         mode = rng.choice(["spaced", "tight", "messy"])
         sents.append(gen.render(rng, toks, mode))
@@ -43,7 +43,7 @@ def inputs(ck):
     streams["mutations"] = muts
     streams["noise"] = noisy
     streams["prep"] = [gen.prep_nests(rng, rng.choice([1, 2, 3, 4])) + rng.choice(["", "class Z;", "#ifdef Q\nclass W"])
-                       for _ in range(300 if quick else 5000)]
+                       for _ in range(300 if quick else 30000)]
     files = gen.corpus_files()
     streams["corpus"] = [t for _, t in files]
     prefixes = []
